@@ -17,6 +17,10 @@ so that  x = R a^{-1} R rhs  (what solve_systems computes, contract SOLVE)  is  
 (lambda_1..lambda_npt, c, g_1..g_n) as _get_model extracts them.  W (lambda, c, g) = (values, 0, 0) are the KKT conditions of
         min 1/4 ||H||_F^2   s.t.   c + g.x_k + 1/2 x_k^T H x_k = values_k  (k = 1..npt),
 whose solution has H = sum_k lambda_k x_k x_k^T, sum lambda_k = 0, sum lambda_k x_k = 0 (cited theorem, not mechanised).
+
+Tolerance tests (np.isclose / np.allclose / abs) have no truth value on a non-constant rational function (Mode B reports an
+engine gap); the unit C13.modeb.shift_views.large_length_scale therefore runs update + shift_x_base on CONCRETE rationals at
+length scales 2^10 / 2^20, where such tests are decided exactly over QQ and the views must be exactly unchanged by the shift.
 """
 from fractions import Fraction
 
@@ -312,6 +316,75 @@ def case_shift(emit, n, npt):
     emit("C13.shift_preserves_views.frame" + tag, ok, note)
 
 
+# ---- O3 at a large length scale: concrete rationals (the only setting in which a tolerance test has a truth value) ----------
+def case_large_scale(emit, n, npt, log2_scale, n_updates):
+    """CONCRETE-RATIONAL scenario "large length scale": all displacements are 2**log2_scale times small generic rationals, the
+    function values are generic rationals of order one.  Fresh model (real __init__), n_updates ordinary updates (real update;
+    an implicit weight of size ~ scale**-4 has then been forwarded, so the implicit weights no longer sum to zero), then the
+    real shift_x_base to another point.  The five views at rational probe points / directions must be EXACTLY the ones of the
+    same quadratic before the shift."""
+    tag = f"[n={n},npt={npt},scale=2^{log2_scale},updates={n_updates},concrete_rational]"
+    label = f"C13.large_scale{tag}"
+    S = 2 ** log2_scale
+    F = FieldCtx([])
+    sh = Shadow()
+    xb_q, X_q = mb.rational_geometry(label, n, npt)                   # poised; poisedness is invariant under scaling
+    xb = mb.lift_array(F, [S * t for t in xb_q])
+    X = mb.lift_array(F, [[S * t for t in r] for r in X_q])
+    rng = mb.rng_for("vals:" + label)
+    it = sh.interpolation(xb.copy(), X.copy())
+    q = sh.m.Quadratic(it, mb.lift_array(F, [mb.rand_q(rng) for _ in range(npt)]), False)
+    for u in range(n_updates):
+        k_new = (0, npt - 1)[u % 2]
+        if mb.all_zero(F, q._i_hess[k_new])[0]:
+            raise mb.Unsupported(f"large-length-scale scenario vacuous: implicit weight {k_new} is zero before update {u}")
+        x_new = mb.lift_array(F, mb.rational_new_point(label + f"u{u}", it.x_base, it.xpt, k_new, scale=S))
+        vd = mb.lift_array(F, [0] * npt)
+        vd[k_new] = mb.rand_q(rng) - q(x_new, it)                     # new value of order one, generic residual
+        dir_old = np.copy(it.xpt[:, k_new])
+        it.xpt[:, k_new] = x_new - it.x_base
+        ill = q.update(it, k_new, dir_old, vd)
+        if bool(ill):
+            raise mb.Unsupported("large-length-scale scenario: ill_conditioned reported True under SOLVE")
+    s = F.zero
+    for k in range(npt):
+        s = s + q._i_hess[k]
+    sq = mb.const_of(F, F.lift(s))
+    if sq is None or sq == 0 or abs(sq) >= mb.ATOL_DEFAULT:
+        raise mb.Unsupported(f"large-length-scale scenario not in the intended regime: sum of the implicit weights = {s} "
+                             f"(must be a non-zero rational below 1e-8 in modulus)")
+    nb = xb + mb.lift_array(F, [S * t for t in mb.rational_vector(label + "newbase", n)])
+    probes = [nb.copy(), xb.copy(), it.point(1)] \
+        + [xb + mb.lift_array(F, [S * t for t in mb.rational_vector(label + f"probe{j}", n)]) for j in range(2)] \
+        + [nb + mb.lift_array(F, mb.rational_vector(label + "near", n))]
+    dirs = [mb.lift_array(F, mb.rational_vector(label + f"dir{j}", n)) for j in range(2)] \
+        + [mb.lift_array(F, [S * t for t in mb.rational_vector(label + "bigdir", n)])]
+
+    def views(itp):
+        return {"call": arr([q(x, itp) for x in probes]), "grad": arr([list(q.grad(x, itp)) for x in probes]),
+                "hess": q.hess(itp), "hess_prod": arr([list(q.hess_prod(v, itp)) for v in dirs]),
+                "curv": arr([q.curv(v, itp) for v in dirs])}
+    before = views(it)
+    lam = q._i_hess.copy()
+    xb0, X0 = it.x_base.copy(), it.xpt.copy()
+    q.shift_x_base(it, nb.copy())
+    ok0, note0 = mb.same(F, it.x_base, xb0)
+    if ok0:
+        ok0, note0 = mb.same(F, it.xpt, X0)
+    it2 = sh.interpolation(nb.copy(), X0 - (nb - xb0)[:, np.newaxis])   # the caller's part: same absolute points, new base
+    after = views(it2)
+    regime = f" [sum of the implicit weights before the shift = {mb.short(s, 60)}, non-zero and below 1e-8]"
+    for lab in ("call", "grad", "hess", "hess_prod", "curv"):
+        ok, note = mb.same(F, after[lab], before[lab])
+        note = note and f"{lab} after the shift - {lab} before the shift (rows = probe points / directions): " + note + regime
+        emit(f"C13.shift_preserves_views.large_length_scale.{lab}" + tag, ok, note)
+    ok, note = mb.same(F, q._i_hess, lam)
+    note = note and "implicit Hessian coefficients changed by the shift: " + note
+    if ok and not ok0:
+        ok, note = False, "Quadratic.shift_x_base modified the interpolation set it was given: " + note0
+    emit("C13.shift_preserves_views.large_length_scale.frame" + tag, ok, note)
+
+
 # ---- units -----------------------------------------------------------------------------------------------------------------
 class _ModeB(Unit):
     props = ("C13",)
@@ -441,4 +514,32 @@ class C13Shift(_ModeB):
             cs.run(f"C13.shift[n={n},npt={p}]", lambda e, n=n, p=p: case_shift(e, n, p), 20, n <= 2)
 
 
-UNITS = [C13Matrix(), C13GetModel(), C13UpdateSmall(), C13UpdateN3(), C13UpdateN3Big(), C13Views(), C13Wrappers(), C13Shift()]
+class C13ShiftLargeScale(_ModeB):
+    """shift_x_base must keep the function also when the implicit weights are tiny (large length scale): the midpoint term
+    0.5 * sum(i_hess) * shift may not be dropped on the grounds that sum(i_hess) is "close to zero"."""
+    name = "C13.modeb.shift_views.large_length_scale"
+    functions = [("cobyqa.models", "Quadratic.shift_x_base"), ("cobyqa.models", "Quadratic.update"),
+                 ("cobyqa.models", "Quadratic.__init__"), ("cobyqa.models", "Quadratic._get_model"), ("cobyqa.models", "build_system"),
+                 ("cobyqa.models", "Quadratic.__call__"), ("cobyqa.models", "Quadratic.grad"), ("cobyqa.models", "Quadratic.hess"),
+                 ("cobyqa.models", "Quadratic.hess_prod"), ("cobyqa.models", "Quadratic.curv")]
+    bounded = ("exact execution on CONCRETE RATIONALS (no symbol except the scale factor of build_system, which cancels), so "
+               "that tolerance tests such as np.isclose have an exact truth value (decided over QQ, rtol=1/10^5, atol=1/10^8): "
+               "seeded generic poised rational geometry (VERIF_SEED) with all displacements scaled by 2^10 (n=2, npt=5 and n=3, "
+               "npt=7) or 2^20 (n=2, npt=5), generic rational function values of order one; fresh model by the real __init__, "
+               "then 1 or 2 ordinary updates (generic rational new points at the same scale keeping the set poised, generic new "
+               "values), after which the sum of the implicit weights is non-zero and below 1e-8 in modulus (checked), then the "
+               "real shift_x_base to a generic rational point; value and gradient at 6 rational probe points (new base, old "
+               "base, an interpolation point, two generic far points, one point near the new base), Hessian, hess_prod and curv "
+               "along 3 rational directions compared with the same views before the shift - exact equality of rationals")
+    # (n, npt, log2 of the length scale, number of ordinary updates before the shift, required)
+    plan = [(2, 5, 10, 1, True), (2, 5, 10, 2, True), (3, 7, 10, 1, True), (3, 7, 10, 2, True), (2, 5, 20, 1, True), (2, 5, 20, 2, True)]
+
+    def run(self, c):
+        cs = Cases(c, self)
+        for n, p, ls, nu, req in self.plan:
+            cs.run(f"C13.large_scale[n={n},npt={p},scale=2^{ls},updates={nu}]",
+                   lambda e, n=n, p=p, ls=ls, nu=nu: case_large_scale(e, n, p, ls, nu), 20, req)
+
+
+UNITS = [C13Matrix(), C13GetModel(), C13UpdateSmall(), C13UpdateN3(), C13UpdateN3Big(), C13Views(), C13Wrappers(), C13Shift(),
+         C13ShiftLargeScale()]
